@@ -199,6 +199,10 @@ async fn main() -> anyhow::Result<()> {
     if std::env::var_os("RIP_VERIF_RENDER").is_some() {
         return verif_render_stdin();
     }
+    #[cfg(rip_verif)]
+    if std::env::var_os("RIP_VERIF_ENSURE").is_some() {
+        return local_authority::verif::ensure_stdin().await;
+    }
     run(Cli::parse()).await
 }
 
